@@ -155,8 +155,9 @@ def fields(rep, prog):
             for k, v in zip(n.keys, n.values):
                 if isinstance(k, ast.Constant) and isinstance(k.value, str): written[k.value] = ast.unparse(v)
     restored = {}
+    ret_name = next((ast.unparse(r.value) for r in ast.walk(u) if isinstance(r, ast.Return) and isinstance(r.value, ast.Name)), 'element')
     for st in ast.walk(u):
-        if isinstance(st, ast.Assign) and isinstance(st.targets[0], ast.Attribute) and ast.unparse(st.targets[0].value) == 'element':
+        if isinstance(st, ast.Assign) and isinstance(st.targets[0], ast.Attribute) and ast.unparse(st.targets[0].value) == ret_name:
             keys = [s.slice.value for s in ast.walk(st.value) if isinstance(s, ast.Subscript) and isinstance(s.slice, ast.Constant) and isinstance(s.slice.value, str) and s.slice.value != 'values']
             restored[st.targets[0].attr] = keys[-1] if keys else None
     up = [s.slice.value for s in ast.walk(u) if isinstance(s, ast.Subscript) and isinstance(s.slice, ast.Constant) and s.slice.value == '_userparams']
@@ -173,7 +174,8 @@ def fields(rep, prog):
     head = {k.arg: ast.unparse(k.value) for n in ast.walk(d) if isinstance(n, ast.Call) and ast.unparse(n.func) == 'SimpleCircuitObjectProperties' for k in n.keywords}
     okh = head.get('type') == 'e.type' and head.get('name') == 'e.name' and head.get('reverse') == 'e.is_reverse'
     rep.ob('R15.fields', 'head', okh, f'{head.keys() and {k: head[k] for k in ("type", "name", "reverse") if k in head}}', prog.site(sm, d))
-    src = ast.unparse(u)
+    p0 = u.args.args[0].arg; p1 = u.args.args[1].arg if len(u.args.args) > 1 else 'circuit_dict'
+    src = ast.unparse(u).replace(p0, 'element_dict').replace(p1, 'circuit_dict')
     okr = "element_dict.get('name'" in src and "element_dict.get('reverse'" in src and "element_dict['type']" in src
     rep.ob('R15.fields', 'head:restored', okr, 'name / reverse / type read back', prog.site(sm, u))
     okm = "circuit_dict[element_dict['name']]" in src.replace('"', "'")
